@@ -935,14 +935,11 @@ def ordered_arguments(
   ):
     if param.kind not in (param.VAR_POSITIONAL, param.VAR_KEYWORD):
       value = unset
-      if name in buildable.__arguments__ or (
-          index in buildable.__arguments__
-          and param.kind == param.POSITIONAL_ONLY
-      ):
-        if name in buildable.__arguments__:
-          value = buildable.__arguments__[name]
-        else:
-          value = buildable.__arguments__[index]
+      # Positional-only arguments are stored under their index; a string key
+      # with the same name is a keyword consumed by **kwargs.
+      key = index if param.kind == param.POSITIONAL_ONLY else name
+      if key in buildable.__arguments__:
+        value = buildable.__arguments__[key]
       elif param.default is not param.empty:
         if include_defaults:
           value = param.default
